@@ -3,6 +3,23 @@ import sys, os, argparse, importlib, json, traceback
 from . import common
 
 
+GROUPS = [('masks', ('C01', 'C08')), ('costs', ('C02', 'C03', 'C04', 'C05', 'C06', 'C10', 'C12', 'C13'))]
+
+
+def group_lock(prop):
+    """checks whose generated models (coq/Gen/*.v, rewritten from the tree under test on every run) are shared may run side by
+    side only on the SAME tree: runs on /repo share the lock of their group, a run on another tree (VERIF_REPO=<scratch
+    worktree>) takes it alone.  Returns the open lock file (released when the process ends)."""
+    if os.environ.get('VERIF_NO_GROUP_LOCK'):
+        return None
+    import fcntl
+    grp = next((g for g, ps in GROUPS if prop in ps), prop)
+    os.makedirs(common.BUILD, exist_ok=True)
+    f = open(os.path.join(common.BUILD, 'gen-%s.lock' % grp), 'w')
+    fcntl.flock(f, fcntl.LOCK_SH if os.path.realpath(common.REPO) == '/repo' else fcntl.LOCK_EX)
+    return f
+
+
 def main():
     ap = argparse.ArgumentParser()
     ap.add_argument('prop')
@@ -15,6 +32,7 @@ def main():
         r = json.load(open(a.replay))
         sys.exit(mod.replay(r))
     ctx = common.Ctx(a.prop, a.tier, seed)
+    _lock = group_lock(a.prop)      # kept open until the process ends
     try:
         mod.run(ctx)
     except Exception:
